@@ -6,6 +6,7 @@ import (
 	"os"
 	"runtime"
 	"sort"
+	"strings"
 	"sync"
 	"syscall"
 	"testing"
@@ -703,6 +704,74 @@ func TestC18AuditClientBuffer(t *testing.T) {
 		hC18.Class("audit-client-own-buffer")
 		if want > 8900 {
 			hC18.NonTrivial(hx.FP("auditclientbuffer", n), func() string { return what })
+		}
+	}
+}
+
+// TestC18Uevent: kernel datagrams of lengths that are no multiple of four. The kernel's device-event broadcasts
+// (NETLINK_KOBJECT_UEVENT, group 1) are plain text, not netlink messages, and as long as their content; a
+// synthetic "change" event for the loopback device (what `udevadm trigger` does; nothing changes) with
+// arguments of varying length is requested through sysfs. A raw socket and a client of the library listen to
+// the group from before the first event: what Receive hands to the parser must be byte for byte what the raw
+// socket read, datagram after datagram.
+func TestC18Uevent(t *testing.T) {
+	rounds := hx.EnvInt("VERIF_N", 60)
+	ref, err := syscall.Socket(syscall.AF_NETLINK, syscall.SOCK_RAW, syscall.NETLINK_KOBJECT_UEVENT)
+	if err == nil {
+		err = syscall.Bind(ref, &syscall.SockaddrNetlink{Family: syscall.AF_NETLINK, Groups: 1})
+	}
+	if err != nil {
+		hC18.Class("no-uevent-socket")
+		t.Skipf("uevent socket: %v", err)
+	}
+	defer syscall.Close(ref)
+	cl, err := libaudit.NewNetlinkClient(syscall.NETLINK_KOBJECT_UEVENT, 1, make([]byte, 16384), nil)
+	if err != nil {
+		t.Skipf("NewNetlinkClient: %v", err)
+	}
+	defer cl.Close()
+	buf := make([]byte, 16384)
+	for r := 0; r < rounds; r++ {
+		req := fmt.Sprintf("change %08x-0000-4000-8000-%012x V=%s", r, r, strings.Repeat("v", 1+r%9))
+		if err := os.WriteFile("/sys/class/net/lo/uevent", []byte(req), 0); err != nil {
+			hC18.Class("no-synthetic-uevents")
+			t.Skipf("cannot request a synthetic uevent: %v", err)
+		}
+		hC18.Eval()
+		var n int
+		for try := 0; try < 5000; try++ {
+			n, _, err = syscall.Recvfrom(ref, buf, syscall.MSG_DONTWAIT)
+			if err == syscall.EAGAIN || err == syscall.EINTR {
+				time.Sleep(100 * time.Microsecond)
+				continue
+			}
+			break
+		}
+		if err != nil {
+			t.Skipf("no uevent arrived: %v", err)
+		}
+		want := append([]byte(nil), buf[:n]...)
+		c := C18Case{Kind: "uevent", Payload: want}
+		var got []syscall.NetlinkMessage
+		for try := 0; try < 5000; try++ {
+			got, err = cl.Receive(true, rawParser)
+			if err == syscall.EAGAIN || err == syscall.EINTR {
+				time.Sleep(100 * time.Microsecond)
+				continue
+			}
+			break
+		}
+		what := fmt.Sprintf("kernel datagram of %d bytes (%d modulo 4) broadcast to the client", len(want), len(want)%4)
+		if err != nil {
+			hC18.Fail(t, "TestC18Uevent", c, "%s: Receive returned an error: %v", what, err)
+		}
+		if len(got) != 1 || !bytes.Equal(got[0].Data, want) {
+			hC18.Fail(t, "TestC18Uevent", c, "%s: Receive handed the parser %d bytes %q, the datagram is %q", what, len(got[0].Data), got[0].Data, want)
+		}
+		hC18.Class("kernel-datagram-received")
+		if len(want)%4 != 0 {
+			hC18.Class("kernel-datagram-of-unaligned-length")
+			hC18.NonTrivial(hx.FP("uevent", len(want)), func() string { return what })
 		}
 	}
 }
